@@ -109,8 +109,10 @@ theorem atomics_never_mixed : ∀ p ∈ plainUses, plainOkB excusedPlain p = tru
 theorem lock_order_acyclic : ∀ m, ¬ Path lockEdges m m :=
   ranked_no_cycle lockRanks lockEdges (by decide +kernel)
 
-/-- every slot phase enters the read lock of its module's rule store at most once and not in a loop
-    (the shape `switch_is_atomic` models), outside the listed known slots -/
+/-- every slot phase (`Check`, `Prepare`, `OnEntryPassed`, `OnEntryBlocked`, `OnCompleted`) enters the read lock of
+    its module's rule store at most once on any path and not in a loop, and every rule loading / clearing function
+    enters the write lock at most once (one atomic replacement) — the shape `switch_is_atomic` models — outside the
+    listed known functions -/
 theorem slots_single_snapshot : ∀ s ∈ slotShapes, shapeOkB knownSlots s = true :=
   List.all_eq_true.mp (by decide +kernel)
 
@@ -166,7 +168,8 @@ def pinnedPlainRows : List PlainUse :=
 theorem bucketstart_plain_read_witness : pinnedPlainRows.all (plainOkB []) = false := by decide
 
 def pinnedOutlierShapes : List SlotShape :=
-  [⟨0, "core/outlier.MetricStatSlot.OnCompleted", 0, 4, false⟩, ⟨1, "core/outlier.Slot.Check", 0, 3, false⟩]
+  [⟨0, "core/outlier.MetricStatSlot.OnCompleted", 0, 4, false⟩, ⟨1, "core/outlier.Slot.Check", 0, 3, false⟩,
+   ⟨2, "core/outlier.LoadRules", 0, 2, false⟩]
 
 theorem outlier_multi_snapshot_witness : pinnedOutlierShapes.all (shapeOkB []) = false := by decide
 
